@@ -79,6 +79,17 @@ impl Scenario for Hb {
             // (whole frames only here: the client makes a request while the server is talking)
             let chatty_frames: Vec<Value> = (1..=13).map(|i| json!([i * h * 900, "hb"])).collect();
             v.push(json!({"h": h, "server": chatty_frames, "client_at": [], "open_delay_ms": h * 1500}));
+            // a peer that stops reading for a while (0.8h .. 1.1h): the tx timer goes off at h
+            // while a publish is still waiting to be written; once the peer reads again the
+            // client keeps its rhythm
+            v.push(json!({"h": h, "server": chatty_frames, "client_at": [h * 500, h * 900], "stall_at": h * 800, "grant_at": h * 1100}));
+            v.push(json!({"h": h, "server": chatty_frames, "client_at": [h * 500, h * 1400], "stall_at": h * 1300, "grant_at": h * 1600}));
+            // an I/O thread that does not get to run for a while (0.9h .. 1.1h) at the hand-over
+            // from the handshake: OpenOk arrives at 0.95h, the tx timer goes off at h, and the I/O
+            // thread finds both in one wake-up (OpenOk first); also with OpenOk behind the timer
+            v.push(json!({"h": h, "server": chatty_frames, "client_at": [], "open_delay_ms": h * 950, "hold": [h * 900, h * 1100]}));
+            v.push(json!({"h": h, "server": chatty_frames, "client_at": [], "open_delay_ms": h * 1050, "hold": [h * 900, h * 1100]}));
+            v.push(json!({"h": h, "server": [], "client_at": [], "open_delay_ms": h * 950, "hold": [h * 900, h * 1100]}));
         }
         // heartbeats off: silence is never fatal, nothing is sent
         // the client closes at 3 s, the server never answers and says nothing more: the close is
@@ -148,11 +159,30 @@ impl Scenario for Hb {
         let client_at: Vec<u64> = p["client_at"].as_array().unwrap().iter().map(|x| x.as_u64().unwrap()).collect();
         let ctimeout = p["ctimeout_ms"].as_u64().map(std::time::Duration::from_millis);
         let lower_client = p["server_h"].is_u64();
+        // what the program does, in order of time: publishes, and the peer's stall / resumption
+        let mut agenda: Vec<(u64, &'static str)> = client_at.iter().map(|t| (*t, "publish")).collect();
+        if let Some(t) = p["stall_at"].as_u64() {
+            agenda.push((t, "stall"));
+            cfg.no_grants = true;
+        }
+        if let Some(t) = p["grant_at"].as_u64() {
+            agenda.push((t, "grant"));
+        }
+        agenda.sort();
+        let hold: Option<(u64, u64)> = p["hold"].as_array().map(|a| (a[0].as_u64().unwrap(), a[1].as_u64().unwrap()));
         Built {
             broker: Box::new(broker),
             cfg,
             root: Box::new(move |ctx: Ctx| {
                 amiquip::verif::clock::set_timer_tie_newest_first(newest_first);
+                if let Some((from, to)) = hold {
+                    ctx.spawn("holder", move |ctx| {
+                        ctx.sleep_ms(from);
+                        ctx.hold_io(true);
+                        ctx.sleep_ms(to - from);
+                        ctx.hold_io(false);
+                    });
+                }
                 let mut conn = match open(&ctx, ConnectionOptions::default().heartbeat(if h == 0 { 0 } else if lower_client { h as u16 } else { 600 }).connection_timeout(ctimeout), ConnectionTuning::default()) {
                     Ok(c) => c,
                     Err(e) => {
@@ -165,10 +195,18 @@ impl Scenario for Hb {
                 if dead_peer {
                     ctx.stall_transport();
                 }
-                for t in &client_at {
+                for (t, what) in &agenda {
                     let now = ctx.now_ms();
                     if *t > now {
                         ctx.sleep_ms(*t - now);
+                    }
+                    if *what == "stall" {
+                        ctx.stall_transport();
+                        continue;
+                    }
+                    if *what == "grant" {
+                        ctx.force_grant();
+                        continue;
                     }
                     if let Ok(ch) = &ch {
                         let r = ch.basic_publish("", Publish::new(b"tick", "k"));
@@ -258,7 +296,13 @@ impl Scenario for Hb {
         // alive was read when it arrived (the reference above is built from the client's reads)
         for ev in p["server"].as_array().unwrap() {
             // (the scripted server sends nothing ahead of a delayed OpenOk)
-            let t = ev[0].as_u64().unwrap().max(p["open_delay_ms"].as_u64().unwrap_or(0)) * MS;
+            let mut t = ev[0].as_u64().unwrap().max(p["open_delay_ms"].as_u64().unwrap_or(0)) * MS;
+            // (an I/O thread that is not given the processor reads when it runs again)
+            if let Some(hold) = p["hold"].as_array() {
+                if t >= hold[0].as_u64().unwrap() * MS && t <= hold[1].as_u64().unwrap() * MS {
+                    t = hold[1].as_u64().unwrap() * MS;
+                }
+            }
             if t + g < alive_until && !o.read_times.iter().any(|(rt, n)| *rt >= t && *rt <= t + g && *n > 0) {
                 v.push(("hb:inbound-not-read".into(), format!("the server sent at {} ms but the client did not read then (reads at {:?} ms)", t / MS, o.read_times.iter().map(|(t, _)| t / MS).collect::<Vec<_>>())));
                 break;
@@ -268,12 +312,23 @@ impl Scenario for Hb {
         if p["dead_peer"] == true {
             return v;
         }
+        // windows in which the client could not write: the peer did not take anything, or the I/O
+        // thread was not given the processor. A write that fell due inside one is due at its end.
+        let mut excused: Vec<(u64, u64)> = Vec::new();
+        if let (Some(a), Some(b)) = (p["stall_at"].as_u64(), p["grant_at"].as_u64()) {
+            excused.push((a * MS, b * MS));
+        }
+        if let Some(hold) = p["hold"].as_array() {
+            excused.push((hold[0].as_u64().unwrap() * MS, hold[1].as_u64().unwrap() * MS));
+        }
         let mut last_w = start;
         for (t, _) in o.write_times.iter() {
             if *t > alive_until {
                 break;
             }
-            if *t > last_w + hn + g {
+            let due = last_w + hn;
+            let due = excused.iter().find(|(a, b)| due + g >= *a && due <= *b).map(|(_, b)| *b).unwrap_or(due);
+            if *t > due + g {
                 v.push(("hb:client-silent-too-long".into(), format!("no client byte between {} ms and {} ms (h = {} s)", last_w / MS, t / MS, h)));
                 break;
             }
@@ -322,6 +377,14 @@ impl Scenario for Throttle {
         // at once (under back-pressure); the other publisher and the connection are not affected
         v.push(json!({"bound": 16, "high": 128, "low": 0, "stall": 300, "grants": [33], "srvclose": true}));
         v.push(json!({"bound": 1, "high": 64, "low": 0, "stall": 330, "grants": [33], "srvclose": true}));
+        // a pile-up: while the transport is not taking anything (a nowait call waits in the
+        // output buffer) the I/O thread is not scheduled; both publishers hand over everything
+        // they have, the transport becomes writable again, and the I/O thread then finds channel 1,
+        // channel 2 and the transport ready in one wake-up, in that order (and with the channels
+        // the other way round)
+        v.push(json!({"bound": 16, "high": 128, "low": 0, "stall": 100000, "grants": [33], "pileup": [1, 2]}));
+        v.push(json!({"bound": 16, "high": 128, "low": 0, "stall": 100000, "grants": [33], "pileup": [2, 1]}));
+        v.push(json!({"bound": 16, "high": 300, "low": 100, "stall": 100000, "grants": [33], "pileup": [1, 2]}));
         // a backlog of megabytes (six messages of 400 000 bytes behind the stall, default-sized
         // high-water mark) that the transport then takes in one go
         v.push(json!({"bound": 16, "high": 16777216, "low": 0, "stall": 260, "grants": [], "body": 400000}));
@@ -382,6 +445,10 @@ impl Scenario for Throttle {
             // only the session itself lets the transport take bytes again
             cfg.no_grants = true;
         }
+        let pileup: Option<Vec<u16>> = p["pileup"].as_array().map(|a| a.iter().map(|x| x.as_u64().unwrap() as u16).collect());
+        if pileup.is_some() {
+            cfg.no_grants = true;
+        }
         let close_behind = p["close_behind"] == true;
         if close_behind {
             // the peer trickles: 33 bytes at a time, to the end
@@ -405,6 +472,50 @@ impl Scenario for Throttle {
                     }
                 };
                 let mut actors = Vec::new();
+                if let Some(order) = &pileup {
+                    let mut chans: Vec<Option<amiquip::Channel>> = (1..=3u16).map(|c| conn.open_channel(Some(c)).ok()).collect();
+                    let c3 = chans[2].take();
+                    ctx.wait_io_quiet();
+                    ctx.stall_transport();
+                    if let Some(c3) = &c3 {
+                        let r = c3.queue_bind_nowait("q", "ex", "k", Default::default());
+                        ctx.log(format!("bind3 -> {}", res(&r)));
+                    }
+                    ctx.wait_io_quiet();
+                    ctx.hold_io(true);
+                    for chan in order {
+                        let ch = match chans[*chan as usize - 1].take() {
+                            Some(c) => c,
+                            None => continue,
+                        };
+                        let chan = *chan;
+                        let a = ctx.spawn(&format!("p{}", chan), move |ctx| {
+                            for i in 0..3u8 {
+                                let body = vec![chan as u8 * 16 + i; body_len];
+                                let r = ch.basic_publish("ex", Publish::new(&body, "k"));
+                                ctx.log(format!("publish{} -> {}", i, res(&r)));
+                            }
+                            let r = ch.close();
+                            ctx.log(format!("chclose -> {}", res(&r)));
+                        });
+                        ctx.wait_blocked(a);
+                        actors.push(a);
+                    }
+                    ctx.force_grant();
+                    ctx.hold_io(false);
+                    if let Some(c3) = c3 {
+                        let r = c3.qos(0, 3, false);
+                        ctx.log(format!("qos3 -> {}", res(&r)));
+                        let r = c3.close();
+                        ctx.log(format!("close3 -> {}", res(&r)));
+                    }
+                    for a in actors {
+                        ctx.join(a);
+                    }
+                    let r = conn.close();
+                    ctx.log(format!("close -> {}", res(&r)));
+                    return;
+                }
                 // (srvclose: both channels exist before the publishers stall the transport)
                 let mut pre: Vec<Option<amiquip::Channel>> = Vec::new();
                 if srvclose {
@@ -566,6 +677,9 @@ impl Scenario for Throttle {
         }
         let main = o.logs.get("main").cloned().unwrap_or_default();
         let mut want_main = vec!["open3 -> Ok", "qos3 -> Ok", "close3 -> Ok", "close -> Ok"];
+        if p["pileup"].is_array() {
+            want_main[0] = "bind3 -> Ok";
+        }
         if p["srvclose"] == true {
             want_main.splice(0..0, ["reopen1 (server close pushed true) -> Ok(1)", "reqos1 -> Ok", "reclose1 -> Ok"]);
         }
